@@ -212,8 +212,12 @@ class _Secrets:
     def randbelow(self, n):
         self.sim.n_randbelow += 1
         if self.sim.randbelow_hook is not None:
-            return self.sim.randbelow_hook(self.sim.current, n)
-        return self._rng().randrange(n)
+            r = self.sim.randbelow_hook(self.sim.current, n)
+        else:
+            r = self._rng().randrange(n)
+        if self.sim.randbelow_args is not None:
+            self.sim.randbelow_args.append((n, r))
+        return r
 
     def randbits(self, k):
         return self._rng().getrandbits(k) if k else 0
@@ -267,6 +271,7 @@ class Sim:
         self.rngs = [random.Random(f'{seed}/{i}') for i in range(m)]
         self.n_randbelow = 0
         self.randbelow_hook = None
+        self.randbelow_args = None  # set to [] to record (argument, result) of every randbelow call
         self.loops = [Loop(self, i) for i in range(m)]
         self.steps = 0
         self.inconclusive = False
